@@ -66,7 +66,7 @@ def value_candidates(lit):
 def build_grid(rows_spec, version='3.0', churn=0):
     """rows_spec: list of dict tag -> model value | 'ABSENT' | 'NONE' | 'MARKER'; ids id0..
     churn: the grid has a history - a row that was appended and deleted again (1), a row that was replaced (2), a
-    look-up by id before the rows were complete (3) - none of which is visible in its rows"""
+    look-up by id before the rows were complete (3), a batch extend refused half-way (4) - none of which is visible in its rows"""
     import hszinc
     g = hszinc.Grid(version=version)
     g.metadata['gm'] = 'meta'
@@ -99,6 +99,17 @@ def build_grid(rows_spec, version='3.0', churn=0):
         first = g[0]
         g[0] = {'id': 'replaced'}
         g[0] = first
+    elif churn == 4:
+        # a batch that is refused half-way (its last member is no row at all); whatever part of it the grid kept is taken
+        # out again, so rows 'nope' / 'ghost' are not in the grid and a Ref to them dangles
+        n = len(g)
+        ghost = dict((t, 5.0) for t in tags)
+        try:
+            g.extend([dict(ghost, id='nope'), dict(ghost, id='ghost'), 42])
+        except Exception:  # noqa - how a bad batch is refused is C14's subject
+            pass
+        while len(g) > n:
+            del g[len(g) - 1]
     return g
 
 
@@ -133,8 +144,80 @@ def excluded(ast, text, rows_spec, excl):
     return None
 
 
+def _swap_kind(lit, variant):
+    k = lit[0]
+    if k == 'num':
+        return [['str', repr(lit[1])], ['bool', bool(lit[1])], ['qty', lit[1], 'kW'], ['str', '%g' % lit[1]]][variant % 4]
+    if k == 'bool':
+        return [['num', 1.0 if lit[1] else 0.0], ['str', 'true' if lit[1] else 'false']][variant % 2]
+    if k == 'str':
+        return ['uri', lit[1]] if lit[1] and all(c == '/' or c.isalnum() for c in lit[1]) and lit[1].isascii() else ['str', lit[1] + ' ']
+    if k == 'uri':
+        return ['str', lit[1]]
+    if k == 'qty':
+        return [['num', lit[1]], ['qty', lit[1], 'W' if lit[2] != 'W' else 'kW']][variant % 2]
+    if k == 'ref':
+        return ['str', lit[1]]
+    if k == 'date':
+        return ['str', '%04d-%02d-%02d' % tuple(lit[1:4])]
+    return None
+
+
+def _map_atoms(node, fn):
+    if node[0] in ('and', 'or'):
+        return [node[0], [_map_atoms(c, fn) for c in node[1]]]
+    if node[0] == 'paren':
+        return ['paren', _map_atoms(node[1], fn)]
+    return fn(node)
+
+
+def siblings(ast):
+    """filters that look like `ast` - same atoms in the same order - but mean something else: every literal replaced by
+    an equal-looking literal of another kind, the connectives regrouped, and / or exchanged"""
+    out = []
+    for variant in (0, 1):
+        def swap(a, variant=variant):
+            if a[0] != 'cmp':
+                return a
+            l = _swap_kind(a[3], variant)
+            if l is None:
+                return a
+            op = a[1] if (a[1] in ('==', '!=') or l[0] in ORDERED) else '=='
+            return ['cmp', op, a[2], l]
+        s = _map_atoms(ast, swap)
+        if s != ast and s not in out:
+            out.append(s)
+    ats = list(fr.atoms(ast))
+    if len(ats) >= 3:
+        for s in (['or', [ats[0], ['and', ats[1:]]]], ['and', [['paren', ['or', ats[:2]]]] + ats[2:]],
+                  ['and', ats[:-2] + [['paren', ['or', ats[-2:]]]]], ['or', [['and', ats[:-1]], ats[-1]]]):
+            if s != ast and s not in out:
+                out.append(s)
+    elif len(ats) == 2 and ast[0] in ('and', 'or'):
+        out.append(['or' if ast[0] == 'and' else 'and', ats])
+    return out[:5]
+
+
 def check(case, grid=None, excl=frozenset()):
-    """case = {'ast', 'choices', 'rows', 'limit'}"""
+    """case = {'ast', 'choices', 'rows', 'limit'[, 'siblings': True]}.  With siblings the look-alike filters of
+    siblings(ast) are evaluated on the same grid first, then the filter itself, then the look-alikes again - each judged by
+    the reference evaluator - so that nothing one filter leaves behind (a compiled function, a memo, an interned literal)
+    can answer for another."""
+    if case.get('siblings'):
+        g = grid if grid is not None else build_grid(case['rows'], case.get('version', '3.0'), case.get('churn', 0))
+        sibs = siblings(case['ast'])
+        r = None
+        for s in sibs + [None] + sibs[::-1]:
+            c = dict(case, siblings=False)
+            if s is not None:
+                c['ast'] = s
+            try:
+                rr = check(c, g, excl)
+            except Violation as v:
+                raise Violation(v.stage, dict(case, text=v.case.get('text')), 'in a sequence of look-alike filters: ' + v.detail, v.tags)
+            if s is None:
+                r = rr
+        return r
     import hszinc
     ast = case['ast']
     plan = Plan(case.get('choices', ()))
@@ -200,18 +283,24 @@ def small_scope_rows():
 
 
 def small_scope_filters():
+    """(group, ast): filters of one group are made of the same atoms in the same order and differ only in connectives
+    and grouping; a group is always evaluated in one process, back to back"""
+    g = 0
     for x in ATOMS:
-        yield x
+        yield g, x
+        g += 1
     for x, y in itertools.product(ATOMS, repeat=2):
-        yield ['and', [x, y]]
-        yield ['or', [x, y]]
+        yield g, ['and', [x, y]]
+        yield g, ['or', [x, y]]
+        g += 1
     for x, y, z in itertools.product(ATOMS, repeat=3):
-        yield ['and', [x, y, z]]
-        yield ['or', [x, y, z]]
-        yield ['or', [['and', [x, y]], z]]
-        yield ['or', [x, ['and', [y, z]]]]
-        yield ['and', [['paren', ['or', [x, y]]], z]]
-        yield ['and', [x, ['paren', ['or', [y, z]]]]]
+        yield g, ['and', [x, y, z]]
+        yield g, ['or', [x, y, z]]
+        yield g, ['or', [['and', [x, y]], z]]
+        yield g, ['or', [x, ['and', [y, z]]]]
+        yield g, ['and', [['paren', ['or', [x, y]]], z]]
+        yield g, ['and', [x, ['paren', ['or', [y, z]]]]]
+        g += 1
 
 
 # ---------------------------------------------------------------- random filters
@@ -276,7 +365,7 @@ def strategies(excl):
         return {'ast': a, 'choices': draw(st.lists(st.integers(0, 11), max_size=30)), 'rows': rows,
                 'limit': draw(st.sampled_from([0, 0, 0, 1, 2, nrows])),
                 'version': draw(st.sampled_from(['3.0', '3.0', '2.0', '2.5', '3.0.0', '1.0', '4.0', '2'])),
-                'churn': draw(st.sampled_from([0, 0, 1, 2, 3]))}
+                'churn': draw(st.sampled_from([0, 0, 1, 2, 3, 4])), 'siblings': draw(st.booleans())}
     return cases()
 
 
@@ -296,10 +385,10 @@ def run(part, args, env):
         before = model.grid_to_model(g)
         raw0 = model.raw_snapshot(g)
         n = nt = 0
-        for i, ast in enumerate(small_scope_filters()):
-            if i % args['of'] != args['shard']:
+        for i, (grp, ast) in enumerate(small_scope_filters()):
+            if grp % args['of'] != args['shard']:
                 continue
-            if not args['full'] and i > 600 and (i // 16) % 4:      # quick: all 1- and 2-atom filters, every 4th 3-atom filter
+            if not args['full'] and i > 600 and (grp // 16) % 4:      # quick: all 1- and 2-atom filters, every 4th 3-atom group
                 continue
             case = {'ast': ast, 'choices': [i % 7, (i // 7) % 5] if i % 3 == 0 else [], 'rows': 'small-scope', 'limit': 0 if i % 5 else 3}
             try:
